@@ -88,6 +88,7 @@ func templateFor(stdlib bool) *template {
 func newRT(stdlib, prodReader bool) *rt {
 	t := templateFor(stdlib)
 	env := el.MustEnv(el.Opts{Stdlib: stdlib, ProdReader: prodReader})
+	env.Runtime.Library = memFiles // what load-file reads (ast.go nF)
 	r := &rt{env: env, reg: env.Runtime.Registry, base: make(map[string]*pkgSnap, len(t.pkgNames)),
 		lang: env.Runtime.Registry.Lang, langNames: t.langNames}
 	for _, pn := range t.pkgNames {
